@@ -238,7 +238,7 @@ func (fc *FnCtx) inline(st *State, instr ssa.CallInstruction, callee *ssa.Functi
 		if r.st.dead {
 			continue
 		}
-		vc.assert(mkImp(r.st.guard, svEq(out, flattenResults(resT, r.results))))
+		vc.defEq(r.st.guard, out, flattenResults(resT, r.results))
 	}
 	return out
 }
@@ -348,6 +348,22 @@ func (fc *FnCtx) applyContract(st *State, instr ssa.CallInstruction, c *Contract
 	post.oldVars = env.vars
 	post.fcLocalsOff()
 	fc.bindResults(post, c, callee, res, resT)
+	// ghost results: the callee's ghost variables at its return (existential witnesses)
+	fc.lastGhost = map[string]SV{}
+	for _, gv := range c.GhostVars {
+		t := vc.fresh("gr_"+gv.Name, gv.Sort)
+		var sv SV
+		switch gv.Sort {
+		case SBool:
+			sv = mathBool(t)
+		case SArrInt:
+			sv = SV{Typ: tIntArray, T: []Term{t}}
+		default:
+			sv = mathInt(t)
+		}
+		post.vars[gv.Name] = sv
+		fc.lastGhost[gv.Name] = sv
+	}
 	for _, en := range c.Ensures {
 		en := en
 		vc.safeEval(fmt.Sprintf("%s:%d ensures", en.File, en.Line), func() {
@@ -609,6 +625,9 @@ func (fc *FnCtx) atCall(st *State, instr ssa.CallInstruction, name string, args 
 			env.vars[fmt.Sprintf("arg%d", i)] = v
 		}
 		if after {
+			for k, v := range fc.lastGhost {
+				env.vars["callee_"+k] = v
+			}
 			env.vars["result"] = res
 			if tup, ok := res.Typ.(*types.Tuple); ok {
 				off := 0
@@ -1003,7 +1022,7 @@ func (fc *FnCtx) invoke(st *State, instr ssa.CallInstruction, c *ssa.CallCommon,
 		}
 		for _, a := range alts {
 			if !a.st.dead {
-				vc.assert(mkImp(a.st.guard, svEq(out, a.res)))
+				vc.defEq(a.st.guard, out, a.res)
 			}
 		}
 		*st = *merged
